@@ -121,6 +121,11 @@ def make_inputs(work, rng):
         (src / n).write_bytes(body)
         os.chmod(src / n, rng.choice([0o644, 0o600, 0o755]))
         names.append(n)
+    # one file that certainly compresses (several blocks and a tail end): its blocks carry a check sum, which the
+    # damaged-image scenarios rely on (blocks stored uncompressed have none)
+    n = os.path.join("d1", "zz compressible.bin")
+    (src / n).write_bytes(b"".join(b"line %07d of a file that compresses well\n" % i for i in range(7000)))
+    names.append(n)
     os.symlink("d1/deep dir", src / "link1")
     os.symlink("/" + "t" * 200, src / "d1" / "longlink")
     for dp, dn, fn in os.walk(src):
@@ -297,12 +302,12 @@ def make_bad_inputs(work, rng):
     img = bytearray((work / "base.sqfs").read_bytes())
     # somewhere in the data area (behind the super block, well in front of the tables at the end): a damaged block
     # (data and fragment blocks lie between the super block and the inode table, whose start is at offset 64 of the super
-    # block; stored-uncompressed blocks have no check sum, so the second half of the whole area is damaged: the first files
-    # still unpack, then a compressed block fails)
+    # block; stored-uncompressed blocks have no check sum, so the whole area is damaged: files of random bytes still
+    # unpack, the first compressed block fails)
     itab = int.from_bytes(img[64:72], "little")
     if not 200 < itab <= len(img):
         raise vlib.CheckFailure("base image: implausible inode table start %d" % itab)
-    for i in range(104 + (itab - 104) // 2, itab):
+    for i in range(104, itab):
         img[i] ^= 0xA5
     (work / "bad_block.sqfs").write_bytes(bytes(img))
     orig = (work / "base.sqfs").read_bytes()
